@@ -341,9 +341,9 @@ def random_clifford(N, device='cpu'):
             gens, g1, g2 = pauli_diagonalize2(g1, g2)
             gs[0] = g1
             gs[1] = g2
-            random_clifford_(gs[2:,2:])
+            gs[2:,2:] = random_clifford_(gs[2:,2:])
             for g in reversed(gens):
-                g = clifford_rotate_signless(g, gs)
+                gs = clifford_rotate_signless(g, gs) # not in-place: keep the rotated table
         return gs
     return random_clifford_(torch.zeros((2*N,2*N), device=device, dtype=torch.float32))
 
